@@ -442,6 +442,34 @@ pub fn family_cond(_tier: Tier) -> Vec<PProblem> {
         jobs.push(job("ss", vec![task(Service, vec![place(1, 2., &[(0., 90.)], Some("a"))], &[]), task(Service, vec![place(3, 2., &[(320., 450.)], Some("b"))], &[])]));
         out.push(base(format!("cond/two-shifts-split/n{n}"), jobs, vec![vehicle_type("v", 1, &[2], vec![s1, s2])]));
     }
+    // two shifts, a reload / a break defined on ONE of them only, the need for it on the other one: what a shift
+    // does not define may not appear in its tour
+    for owner in [0usize, 1] {
+        for n in [3usize, 4] {
+            for what in ["reload", "break"] {
+                let mut shifts = vec![
+                    PShift { start_loc: 0, start_earliest: 0., start_latest: None, end: Some((0, 250.)), breaks: vec![], reloads: vec![], required_breaks: vec![], required_offset: false, recharge: None },
+                    PShift { start_loc: 0, start_earliest: 300., start_latest: None, end: Some((0, 550.)), breaks: vec![], reloads: vec![], required_breaks: vec![], required_offset: false, recharge: None },
+                ];
+                let other = 1 - owner;
+                let base_time = if other == 0 { 0. } else { 300. };
+                if what == "reload" {
+                    shifts[owner].reloads = vec![PReload { loc: 0, duration: 4., times: vec![], tag: Some("r1".into()), resource_id: None }];
+                } else {
+                    // the window of the break is relative to the departure: it would fit into either shift
+                    shifts[owner].breaks = vec![PBreak { time: (20., 200.), duration: 7., loc: None, tag: Some("lunch".into()), offset: true, policy: None }];
+                    // offsets demand a fixed departure (E1307)
+                    shifts[owner].start_latest = Some(shifts[owner].start_earliest);
+                }
+                // every job can only be served during the other shift
+                let mut jobs = deliveries(n);
+                for j in jobs.iter_mut() {
+                    j.tasks[0].places[0].times = vec![(base_time, base_time + 240.)];
+                }
+                out.push(base(format!("cond/two-shifts-{what}-on-one/o{owner}/n{n}"), jobs, vec![vehicle_type("v", 1, &[2], vec![shifts[0].clone(), shifts[1].clone()])]));
+            }
+        }
+    }
     out
 }
 
